@@ -76,6 +76,18 @@ func writeE2E(rng *rand.Rand, dir string, n int, immediate, small bool) {
 		c.Auditor = nil // a disappointed auditor fouls the play: keep the exit status meaningful
 		c.Sentinel = true
 		c.WithMe = true
+		// every role also has a scalar and an event signal on the reception
+		// time, watched by o1 / o2, for the lines that begin with punctuation
+		// or with what looks like a shell trace (`+ p=5`, `++ q=up`, `# ...`)
+		for ri := range c.Roles {
+			r := &c.Roles[ri]
+			r.Sigs = append(r.Sigs,
+				SigDef{Name: "sp", Kind: 1, Group: "now", Key: "p", ValRe: `\S+`},
+				SigDef{Name: "sq", Kind: 0, Group: "now", Key: "q", ValRe: `\S+`})
+			c.Watches = append(c.Watches,
+				Watch{Observer: "o1", Target: "every " + r.Name, Sig: "sp"},
+				Watch{Observer: "o2", Target: "every " + r.Name, Sig: "sq"})
+		}
 		for ri := range c.Roles {
 			for si := range c.Roles[ri].Sigs {
 				c.Roles[ri].Sigs[si].NoNoise = true
@@ -95,6 +107,13 @@ func writeE2E(rng *rand.Rand, dir string, n int, immediate, small bool) {
 		var cast []string
 		for _, r := range c.Roles {
 			cast = append(cast, r.Actors...)
+		}
+		{
+			var all []string
+			for _, r := range c.Roles {
+				all = append(all, r.Actors...)
+			}
+			items = append(items, g.PrefixLines(all, nums, 10+rng.Intn(8))...)
 		}
 		// very long lines (bufio.Reader.ReadString has no line limit): copies
 		// of generated lines with 4 KiB / 8 KiB / 64 KiB+ of padding in front,
@@ -211,6 +230,8 @@ func writeE2E(rng *rand.Rand, dir string, n int, immediate, small bool) {
 				switch (k + len(a)) % 5 {
 				case 1:
 					data.WriteString("  " + l + " \n")
+				case 2:
+					data.WriteString("\t" + l + "\n")
 				case 3:
 					data.WriteString(l + "\t\n")
 				default:
@@ -282,7 +303,7 @@ func checkE2E(dir, out string) {
 	var plays []E2EPlay
 	readJSON(filepath.Join(dir, "plays.json"), &plays)
 	var itemsV []string
-	var cases []map[string]interface{}
+	cases := []map[string]interface{}{}
 	stats := map[string]int{}
 	for _, p := range plays {
 		pdir := filepath.Join(dir, p.Name)
@@ -407,10 +428,18 @@ func checkE2E(dir, out string) {
 		if len(lostLast) > 0 {
 			stats["plays-with-a-lost-last-line"]++
 		}
-		if !complete && startsOK && run.Exit == 0 {
-			// every script started once but one did not get to its end (or
-			// its last line was not read) before the play ended: machine
-			// load; says nothing
+		allDone := true
+		for _, a := range p.Actors {
+			if _, e := os.Stat(filepath.Join(pdir, a+".done")); e != nil {
+				allDone = false
+			}
+		}
+		if !complete && !allDone && startsOK && run.Exit == 0 {
+			// every script started once but one did not get to its end
+			// before the play ended (the wait scene gave up after 10 s):
+			// machine load; says nothing.  (When every script is done, a
+			// missing sentinel row is not a matter of load: the play is
+			// judged like any other.)
 			stats["inconclusive-play-cut-short"]++
 			continue
 		}
